@@ -127,6 +127,13 @@ EOF
   echo "VIOLATION property=C16 replay=$R"
   echo "  kind=not-send-sync: asefile::AsepriteFile (or a borrowed view) is not Send + Sync"
   VIOL=1
+elif [ $rc -eq 0 ]; then
+  # informational: iterator values behind `impl Iterator` (not "the sprite type"; never a violation)
+  if ! (cd "$HERE/typecheck" && CARGO_TARGET_DIR="$TARGET/typecheck" cargo check --offline --quiet --features notes "${CARGO_CFG[@]}" 2> "$TARGET/typecheck-notes.log"); then
+    if grep -qE "cannot be (sent|shared) between threads safely" "$TARGET/typecheck-notes.log"; then
+      echo "NOTE: an iterator returned by an accessor (impl Iterator) is not Send + Sync; the sprite type itself still is (informational, outside C16 as stated)"
+    fi
+  fi
 elif [ $rc -eq 2 ]; then
   TYPE_RESULT="harness-error"
   echo "HARNESS-ERROR: typecheck crate failed to build for a reason other than Send/Sync:" >&2; tail -20 "$TARGET/typecheck.log" >&2
